@@ -164,11 +164,16 @@ impl<'ast, 'decls> ResolveIterator<'ast, 'decls>
                                 span,
                                 &util::BigInt::from(cur_bank_data.cur_position))?;
     
-                        cur_bank_data.cur_position += bits_until_alignment(
+                        let alignment_bits = bits_until_alignment(
                             report,
                             span,
                             cur_address_in_bits,
                             label_align)?;
+
+                        cur_bank_data.cur_position = checked_position(
+                            report,
+                            span,
+                            cur_bank_data.cur_position.checked_add(alignment_bits))?;
                     }
                 }
 
@@ -336,13 +341,11 @@ impl<'ast, 'decls> ResolveIterator<'ast, 'decls>
                 let cur_bank_data = &mut self.bank_data[self.bank_ref.0];
 
                 // Advance the current bank's position
-                cur_bank_data.cur_position += {
-                    match instr.encoding.size
-                    {
-                        Some(size) => size,
-                        None => 0,
-                    }
-                };
+                cur_bank_data.cur_position = checked_position(
+                    report,
+                    ast_instr.span,
+                    cur_bank_data.cur_position.checked_add(
+                        instr.encoding.size.unwrap_or(0)))?;
             }
 
             asm::AstAny::DirectiveData(ast_data) =>
@@ -353,13 +356,11 @@ impl<'ast, 'decls> ResolveIterator<'ast, 'decls>
                 let cur_bank_data = &mut self.bank_data[self.bank_ref.0];
 
                 // Advance the current bank's position
-                cur_bank_data.cur_position += {
-                    match data_elem.encoding.size
-                    {
-                        Some(size) => size,
-                        None => 0,
-                    }
-                };
+                cur_bank_data.cur_position = checked_position(
+                    report,
+                    ast_data.header_span,
+                    cur_bank_data.cur_position.checked_add(
+                        data_elem.encoding.size.unwrap_or(0)))?;
             }
 
             asm::AstAny::DirectiveRes(ast_res) =>
@@ -370,7 +371,10 @@ impl<'ast, 'decls> ResolveIterator<'ast, 'decls>
                 let cur_bank_data = &mut self.bank_data[self.bank_ref.0];
 
                 // Advance the current bank's position
-                cur_bank_data.cur_position += res.reserve_size;
+                cur_bank_data.cur_position = checked_position(
+                    report,
+                    ast_res.header_span,
+                    cur_bank_data.cur_position.checked_add(res.reserve_size))?;
             }
 
             asm::AstAny::DirectiveAlign(ast_align) =>
@@ -392,11 +396,16 @@ impl<'ast, 'decls> ResolveIterator<'ast, 'decls>
                         span,
                         &util::BigInt::from(cur_bank_data.cur_position))?;
 
-                cur_bank_data.cur_position += bits_until_alignment(
+                let alignment_bits = bits_until_alignment(
                     report,
                     span,
                     cur_address_in_bits,
                     align.align_size)?;
+
+                cur_bank_data.cur_position = checked_position(
+                    report,
+                    span,
+                    cur_bank_data.cur_position.checked_add(alignment_bits))?;
             }
 
             asm::AstAny::DirectiveAddr(ast_addr) =>
